@@ -173,7 +173,73 @@ def run(spec):
     return {'nontrivial': marker_word_before or bool(spec['malformed']) or eq_in_comment, 'labels': labels}
 
 
-FAMILIES = [Family('block-text', case, run, quick=5000, thorough=200000)]
+# ---------------------------------------------------------------------------------------------- model level
+DESC_TEXTS = COMMENT_WORDS + ['Exogenous Variables', 'exogenous = [1, 2]', '# Exogenous Variables', 'EXOGENOUS', 'x=y # z',
+                              'MaxTime = 0', 'k', 'F(k-1)', 'a "quoted" name', "O'Brien", '100% (approx.) = 1.0', '']
+
+
+@st.composite
+def model_case(draw):
+    from harness import econ
+    spec = draw(econ.economy(zones=(1, 2), horizon=(2, 3)))
+    texts = draw(st.lists(st.sampled_from(DESC_TEXTS), min_size=3, max_size=8))
+    return {'spec': spec, 'texts': texts}
+
+
+def run_model(case_):
+    from harness import econ, refsolve
+    from sfc_models.equation_parser import EquationParser
+    spec = case_['spec']
+    texts = case_['texts']
+    counter = [0]
+
+    def desc(label):
+        counter[0] += 1
+        return texts[counter[0] % len(texts)]
+
+    plain = econ.build(spec)
+    fancy = econ.build(spec, desc=desc)
+    if (plain.error is None) != (fancy.error is None):
+        raise Violation('C14/description-changes-outcome', 'plain descriptions: %r; adversarial descriptions %r: %r' %
+                        (plain.error, texts, fancy.error))
+    if plain.error is not None:
+        raise Reject('model refused with both description sets')
+    snaps = []
+    for b in (plain, fancy):
+        p = EquationParser()
+        p.ParseString(b.text)
+        snaps.append(snapshot(p))
+    if snaps[0] != snaps[1]:
+        names = ['Endogenous', 'Lagged', 'Exogenous', 'InitialConditions', 'MaxTime', 'Err_Tolerance']
+        bad = [n for n, a, c in zip(names, snaps[0], snaps[1]) if a != c]
+        detail = ''
+        for n, a, c in zip(names, snaps[0], snaps[1]):
+            if a != c and isinstance(a, list):
+                only_a = [x for x in a if x not in c][:3]
+                only_c = [x for x in c if x not in a][:3]
+                detail = ' only plain: %r; only adversarial: %r' % (only_a, only_c)
+                break
+        raise Violation('C14/description-changes-equations', 'descriptions %r change the parsed %r.%s' % (texts, bad, detail))
+    s1 = refsolve.parse_final(plain.text)
+    s2 = refsolve.parse_final(fancy.text)
+    sol1 = s1.solve(spec['horizon'])
+    sol2 = s2.solve(spec['horizon'])
+    if sol1.status != sol2.status:
+        raise Violation('C14/description-changes-solution', 'solvability differs: %r vs %r' % (sol1.status, sol2.status))
+    if sol1.ok():
+        for k in range(1, spec['horizon'] + 1):
+            if sol1.values[k] != sol2.values[k]:
+                bad = [v for v in sol1.values[k] if sol1.values[k][v] != sol2.values[k].get(v)][:3]
+                raise Violation('C14/description-changes-solution', 'descriptions %r change the solution of %r at k=%d' % (texts, bad, k))
+    word = any('exogenous' in t.lower() for t in texts)
+    return {'nontrivial': word or any('=' in t or '#' in t for t in texts),
+            'labels': ['marker-word-in-description'] if word else []}
+
+
+FAMILIES = [
+    Family('block-text', case, run, quick=5000, thorough=200000),
+    Family('model-descriptions', model_case, run_model, quick=200, thorough=6000),
+]
 
 MANIFEST_INFO = {
     'level_text': 'Generated-input exploration: structured block specifications are rendered with generated order, spacing, '
